@@ -149,7 +149,22 @@ func ValidFor(t *rapid.T, entry string) (b []byte, typ int, hot []int) {
 		}
 		ri, _ := rspec.Build()
 		n := len(ri.Ident.Encode())
-		return ri.Encode(), 0, append(identHot(), n, n+7, n+8, n+9, n+10, n+17, n+18)
+		enc := ri.Encode()
+		ps := n + 8 + 1 // offset of peer_size
+		for _, a := range ri.Addrs {
+			ps += len(a.Encode())
+		}
+		hot = append(identHot(), n, n+7, n+8, n+9, n+10, n+17, n+18, ps, ps+1, ps+2)
+		if rapid.IntRange(0, 7).Draw(t, "peers") == 0 {
+			// the layout with peers present: peer_size = k followed by k 32-byte hashes
+			// (the specification keeps the count byte and says it is always zero)
+			k := rapid.IntRange(1, 3).Draw(t, "npeers")
+			out := append([]byte{}, enc[:ps]...)
+			out = append(out, byte(k))
+			out = append(out, model.Fill(32*k, uint64(k)+9)...)
+			enc = append(out, enc[ps+1:]...)
+		}
+		return enc, 0, hot
 	}
 	return rapid.SliceOfN(rapid.Byte(), 0, 64).Draw(t, "raw"), 0, nil
 }
